@@ -401,6 +401,11 @@ class SNum:
     def __format__(self, spec):
         if spec == "":
             return cur().token_for(self, made_by_code=_caller_is_code())
+        m = re.fullmatch(r"\.(\d+)f", spec)
+        if m and not self.is_int:
+            # fixed-point formatting: the printed numeral denotes the value rounded to N decimals
+            r = cur().round_(self, _int(m.group(1)))
+            return cur().token_for(r, made_by_code=False)
         raise Unsupported("format spec %r on a symbolic number" % (spec,))
 
 
